@@ -1164,6 +1164,15 @@ func (x *Exec) binop(st *State, t *ssa.BinOp) Val {
 			return o.Or(at, bt)
 		}
 	}
+	if fq, isQ := a.(FloatQ); isQ {
+		// hours / integer constant (int mode): stays symbolic
+		if c, ok := t.Y.(*ssa.Const); ok && t.Op == token.QUO && c.Value != nil {
+			if f, exact := constant.Float64Val(constant.ToFloat(c.Value)); exact && f == float64(int64(f)) && f >= 1 && f <= 1000 {
+				return FloatQ{Q: fq.Q, R: fq.R, Div: fq.Div * int64(f)}
+			}
+		}
+		x.fail("float arithmetic on a duration's hours other than division by a small integer constant")
+	}
 	if _, _, ok := floatTyOf(xt); ok {
 		at, bt := a.(*Term), b.(*Term)
 		rm := o.App("RNE", &Sort{Kind: SRM})
@@ -1261,6 +1270,18 @@ func (x *Exec) convert(st *State, xv ssa.Value, to types.Type) Val {
 		}
 	}
 	if _, _, ok := floatTyOf(from); ok {
+		if fq, isQ := v.(FloatQ); isQ {
+			ti, ok := intTyOf(to)
+			if !ok {
+				x.fail("conversion of a duration's hours to %s", to)
+			}
+			// exact when the duration is a whole number of hours divisible by Div; otherwise unspecified here
+			d := o.Int(fq.Div)
+			exact := o.And(o.Eq(fq.R, o.Int(0)), o.Eq(o.Mod(fq.Q, d), o.Int(0)))
+			x.callSeq++
+			other := o.TypedFresh(fmt.Sprintf("hours%d.int", x.callSeq), ti)
+			return o.Ite(exact, o.Div(fq.Q, d), other)
+		}
 		if ti, ok := intTyOf(to); ok {
 			return x.floatToInt(v.(*Term), ti)
 		}
